@@ -409,7 +409,7 @@ pub fn observe(root: &Root, m: &M, stats: &mut Stats) -> Result<(), Fail> {
     if c.is_empty() && !flat.is_empty() {
         return Err(f9("chunk-empty", format!("chunk() is empty although {} bytes remain", flat.len())));
     }
-    for &n in &[0usize, 1, 2, 3, 17] {
+    for &n in &[0usize, 1, 2, 3, 16, 17, 18, 21, 40] {
         let mut dst: Vec<IoSlice<'_>> = (0..n).map(|_| IoSlice::new(&SENTINEL)).collect();
         let cnt = t.chunks_vectored(&mut dst);
         stats.vectored += 1;
@@ -929,9 +929,17 @@ pub fn enumerate(b: &Bounds) -> Vec<(Spec, usize)> {
         }
     }
     // many-chunk buffers behind Take and Chain (the 16-slice scratch array of Take)
-    let many: Vec<Vec<u8>> = (0..18).map(|i| vec![0x80 + i as u8]).collect();
-    for inner in [Spec::FragV(many.clone()), Spec::Frag(many.clone())] {
-        for l in [5usize, 16, 17, 18, usize::MAX] {
+    // 20 chunks; the 17th and the 19th are longer than one byte so that "one slice too many" and
+    // "cut at the wrong slice" change the number of bytes exposed
+    let many: Vec<Vec<u8>> = (0..20usize).map(|i| (0..(if i == 16 { 3 } else if i == 18 { 2 } else { 1 })).map(|j| 0x80 + (i * 3 + j) as u8).collect()).collect();
+    let total: usize = many.iter().map(|c| c.len()).sum();
+    // the same bytes as a left-nested Chain of plain slices (crate types only)
+    let mut nested = Spec::Slice(many[0].clone());
+    for c in &many[1..] {
+        nested = Spec::Chain(Box::new(nested), Box::new(Spec::Slice(c.clone())));
+    }
+    for inner in [Spec::FragV(many.clone()), Spec::Frag(many.clone()), nested] {
+        for l in [5usize, 16, 17, 18, 19, 20, 21, total - 1, total, usize::MAX] {
             let t = Spec::Take(Box::new(inner.clone()), l);
             out.push((t.clone(), 1));
             out.push((Spec::Chain(Box::new(t), Box::new(Spec::Slice(vec![0xF0, 0xF1]))), 1));
